@@ -108,6 +108,9 @@ fn main() {
         // hide CPU capabilities from RustFFT's feature detection (hook 1); can only remove capabilities
         rustfft::verif_hooks::set_hidden_features(m as u32);
     }
+    if args.flag("minimal-ill") {
+        shape::MINIMAL_ILL.store(true, std::sync::atomic::Ordering::Relaxed);
+    }
     match args.cmd.as_str() {
         "selftest" => match selftest() {
             Ok(()) => out::emit("selftest", vec![("ok", J::Bool(true))]),
